@@ -1,10 +1,27 @@
 ------------------------------ MODULE Trace_Scc ------------------------------
-(* C20 conformance: one record per call of the real DiGraph.sccs().          *)
+(* C20 conformance.  Two shapes of record:                                   *)
+(*                                                                           *)
+(* (a) one call of the real DiGraph.sccs() on a completely built graph       *)
 (*   nodes : sequence of node labels;  succ : label -> sequence of labels    *)
 (*   (edges to unknown nodes are not part of the graph);  trivial : BOOLEAN; *)
 (*   obs : the yielded components in order;  raised : "" or exception type.  *)
+(*                                                                           *)
+(* (b) an API HISTORY of one DiGraph object (field `steps`):                 *)
+(*   steps : the calls in order, each with raised ("" or exception type) and *)
+(*     op = "ctor" | "add_nodes"   nodes : labels                            *)
+(*     op = "add_neighbors"        node : label, nbs : labels                *)
+(*     op = "sccs"                 trivial, obs : the components taken from  *)
+(*                                 the generator in order, exhausted : the   *)
+(*                                 generator was seen to end                 *)
+(*   TLC folds the mutators into the abstract graph (DiGraphOps, the same    *)
+(*   operators DiGraphApi.tla model-checks) and judges EVERY query against   *)
+(*   the oracle for the graph as it is at that step; the first failing step  *)
+(*   gives the verdict, with its index and where the query stands:           *)
+(*     first-query | after-mutation (an earlier query, then a mutator) |     *)
+(*     repeated-query | after-partial-query (directly after another query)   *)
+(*                                                                           *)
 (* TLC evaluates the oracle (SccOracle.tla) and names the failing clause.    *)
-EXTENDS Naturals, Sequences, FiniteSets, TLC, Json, IOUtils, SequencesExt, SccOracle
+EXTENDS Naturals, Sequences, FiniteSets, TLC, Json, IOUtils, SequencesExt, DiGraphOps
 
 Recs == JsonDeserialize(IOEnv.TRACE_FILE)
 VARIABLE k
@@ -12,20 +29,61 @@ Init == k \in 1..Len(Recs)
 Next == UNCHANGED k
 Spec == Init /\ [][Next]_k
 
+(* obs: sequence of sequences of labels *)
+JudgeObs(Nodes, Succ, trivial, obs, exhausted) ==
+  LET comps == [i \in 1..Len(obs) |-> ToSet(obs[i])]
+  IN IF \E i \in 1..Len(obs) : Len(obs[i]) # Cardinality(comps[i])
+     THEN "C20:node-twice-in-component"
+     ELSE JudgeAnswer(Nodes, Succ, trivial, comps, exhausted)
+
+(* ----- (a) single call ------------------------------------------------------*)
 Verdict(r) ==
   LET Nodes == ToSet(r.nodes)
       Succ == [x \in Nodes |-> ToSet(r.succ[x])]
-      comps == [i \in 1..Len(r.obs) |-> ToSet(r.obs[i])]
-      Y == {comps[i] : i \in 1..Len(r.obs)}
   IN IF r.raised # "" THEN "C20:raised"
-     ELSE IF \E i \in 1..Len(r.obs) : Len(r.obs[i]) # Cardinality(comps[i]) THEN "C20:node-twice-in-component"
-     ELSE IF \E i \in 1..Len(r.obs) : comps[i] \notin Components(Nodes, Succ) THEN "C20:wrong-class"
-     ELSE IF Len(r.obs) # Cardinality(Y) THEN "C20:twice"
-     ELSE IF Y # Expected(Nodes, Succ, r.trivial) THEN
-          (IF r.trivial THEN "C20:not-partition"
-           ELSE IF \E C \in Y : ~Cyclic(Succ, C) THEN "C20:acyclic-component-reported"
-           ELSE "C20:cycle-missed")
-     ELSE ""
+     ELSE JudgeObs(Nodes, Succ, r.trivial, r.obs, TRUE)
 
-Report == LET v == Verdict(Recs[k]) IN (v # "") => PrintT(<<"SCC", Recs[k].id, v>>)
+(* ----- (b) history ------------------------------------------------------------*)
+IsQuery(s) == s.op = "sccs"
+
+StepGraph(g, s) ==
+  IF s.op \in {"ctor", "add_nodes"} THEN AddNodes(g, ToSet(s.nodes))
+  ELSE IF s.op = "add_neighbors" THEN AddNeighbors(g, s.node, ToSet(s.nbs))
+  ELSE g
+
+JudgeStep(g, s) ==
+  IF s.raised # "" THEN "C20:raised"
+  ELSE IF IsQuery(s) THEN JudgeObs(g.nodes, g.succ, s.trivial, s.obs, s.exhausted)
+  ELSE ""
+
+(* where step i stands; queried = some query among steps 1..i-1 *)
+Context(steps, i, queried) ==
+  IF ~IsQuery(steps[i]) THEN "mutation"
+  ELSE IF ~queried THEN "first-query"
+  ELSE IF ~IsQuery(steps[i - 1]) THEN "after-mutation"
+  ELSE IF steps[i - 1].exhausted THEN "repeated-query"
+  ELSE "after-partial-query"
+
+RECURSIVE Hist(_, _, _, _)
+Hist(steps, i, g, queried) ==
+  IF i > Len(steps) THEN <<"", 0, "">>
+  ELSE LET v == JudgeStep(g, steps[i])
+       IN IF v # "" THEN <<v, i, Context(steps, i, queried)>>
+          ELSE Hist(steps, i + 1, StepGraph(g, steps[i]), queried \/ IsQuery(steps[i]))
+
+(* every label that ever becomes a node *)
+HistUniverse(steps) ==
+  UNION {ToSet(steps[i].nodes) :
+           i \in {j \in 1..Len(steps) : steps[j].op \in {"ctor", "add_nodes"}}}
+
+HistVerdict(r) == Hist(r.steps, 1, EmptyGraph(HistUniverse(r.steps)), FALSE)
+
+IsHistory(r) == "steps" \in DOMAIN r
+
+Report ==
+  LET r == Recs[k]
+  IN IF IsHistory(r)
+     THEN LET h == HistVerdict(r)
+          IN (h[1] # "") => PrintT(<<"SCCH", r.id, h[1], h[2], h[3]>>)
+     ELSE LET v == Verdict(r) IN (v # "") => PrintT(<<"SCC", r.id, v>>)
 =============================================================================
